@@ -82,13 +82,44 @@ func ruleGoClosureCaptures(c *Ctx, rule string) {
 						mc = m2
 					}
 				}
-				if mc == nil {
-					return
+			}
+			// go f(&v): the address of a local that is assigned again after the go statement (a range variable under
+			// the per-loop semantics of this module's Go version) is shared with the goroutine
+			after := c.reachAfter(g, nil)
+			var addrArgs []*ssa.Alloc
+			for _, a := range g.Call.Args {
+				var root ssa.Value = a
+				for {
+					switch x := root.(type) {
+					case *ssa.FieldAddr:
+						root = x.X
+						continue
+					case *ssa.IndexAddr:
+						root = x.X
+						continue
+					}
+					break
+				}
+				if al, ok := root.(*ssa.Alloc); ok {
+					addrArgs = append(addrArgs, al)
 				}
 			}
+			if mc == nil && len(addrArgs) == 0 {
+				return
+			}
 			n++
-			after := c.reachAfter(g, nil)
 			bad := ""
+			for _, a := range addrArgs {
+				for _, ref := range *a.Referrers() {
+					if st, ok := ref.(*ssa.Store); ok && st.Addr == ssa.Value(a) && after.has(st) {
+						bad = "&" + a.Comment
+					}
+				}
+			}
+			if mc == nil {
+				c.ob(rule, fn, "goroutine receives no address of a variable that is written after it started", g, bad == "", "the address passed to the function started with `go` is not of a local assigned again on a path after the go statement "+bad)
+				return
+			}
 			for _, b := range mc.Bindings {
 				a, ok := b.(*ssa.Alloc)
 				if !ok {
